@@ -235,3 +235,91 @@ Theorem C01_ordered_def : forall st p l,
    st <= p <= fold_right Nat.max st (map S l) /\ Proofs.BufferMore.ordered st l).
 Proof. exact Proofs.BufferMore.ordered_def. Qed.
 Print Assumptions C01_ordered_def.
+
+(* ================================================================================================================
+   Buffer.get and Buffer.commit AS WRITTEN IN THE CURRENT SOURCE are the model's [get_attempt] and the model's OCommit step
+   on which every theorem above rests.  coq/Gen/ImplBuffer.v is printed from buffer.go (and the struct declaration of
+   Buffer) by harness/cmd/gotr -set buffer on every run; [GoFrag3.run3] is the interpreter of the fragment it is written in
+   (Model/GoFrag3.v: the receiver's fields as a record state [store], map lookup with comma-ok and map store, slice
+   indexing, multi-value returns as a list, errors as the TAG of the expression that constructs them - the message text is
+   not translated -, `b.mutex.Lock()`, `defer b.mutex.Unlock()`, `b.cond.Broadcast()` as logged effects; locking itself is
+   C11's subject).  Vocabulary (Model/BufferSrc.v): [mkstore closed consumers offset buffer] a source-level state (is
+   b.ctx.Err() non-nil, b.consumers as an association list from consumer ids to committed offsets, b.offset, b.buffer);
+   [abs s] the ABSTRACTION FUNCTION: the source-level state a model state stands for (ctx cancelled = bclosed, consumers =
+   the registered consumers' ccommit, offset = base, buffer = the log from base on); [get_spec], [commit_spec] the closed
+   forms; [get_expected s c] = (value, true, nil) / (nil, false, nil) / (nil, false, err) for the model's RVal / REmpty /
+   RErr, err named by [get_err].  The parameters oe me perm fuel of the interpreter (oracles, callable methods, map
+   iteration order, loop bound) are irrelevant to these two loop-free methods: the theorems hold for all of them.
+   ================================================================================================================ *)
+From BB.Model Require Import GoFrag GoFrag3 BufferSrc.
+From BB.Gen Require ImplBuffer.
+From BB.Proofs Require BufferGen.
+
+(* On EVERY source-level state - any map, any integers (also negative or inconsistent offsets), any slice - and for every
+   key and every integer argument: the run of the translated get changes nothing, has no effect, and returns the closed
+   form [get_spec]: the context's error if it is cancelled; else "unknown consumer" if c is not in the map; else, with
+   relative = offset argument + consumers[c] - b.offset: "past" if relative < 0, (nil, false, nil) if relative >= len,
+   (buffer[relative], true, nil) otherwise. *)
+Theorem C01_get_source_is_spec : forall oe me perm fuel closed consumers offset buffer c (delta : Z),
+  run3 oe me perm fuel BB.Gen.ImplBuffer.get_def (mkstore closed consumers offset buffer) [WKey c; W (VInt delta)]
+  = Returned3 (mkstore closed consumers offset buffer) (get_spec closed consumers offset buffer c delta) [].
+Proof. exact Proofs.BufferGen.get_src_eq_spec. Qed.
+Print Assumptions C01_get_source_is_spec.
+
+(* On the image of EVERY model state, called as consumer.Get calls it (the consumer's own context is live, the offset
+   argument is consumer.offset = cdelta; c may also be an id that was never handed out): the three results are the
+   model's [get_attempt s c]. *)
+Theorem C01_get_source_is_model : forall oe me perm fuel s c (delta : Z),
+  (forall k, getc s c = Some k -> ccancel k = false /\ delta = Z.of_nat (cdelta k)) ->
+  run3 oe me perm fuel BB.Gen.ImplBuffer.get_def (abs s) [WKey c; W (VInt delta)]
+  = Returned3 (abs s) (get_expected s c) [].
+Proof. exact Proofs.BufferGen.get_src_eq_model. Qed.
+Print Assumptions C01_get_source_is_model.
+
+(* On EVERY source-level state: commit returns "unknown consumer" and changes nothing if c is not in the map, and otherwise
+   replaces consumers[c] by consumers[c] + the offset argument, broadcasts and returns nil; the write lock is taken first and
+   released last (deferred) on both paths. *)
+Theorem C01_commit_source_is_spec : forall oe me perm fuel closed consumers offset buffer c (delta : Z),
+  run3 oe me perm fuel BB.Gen.ImplBuffer.commit_def (mkstore closed consumers offset buffer) [WKey c; W (VInt delta)]
+  = commit_spec closed consumers offset buffer c delta.
+Proof. exact Proofs.BufferGen.commit_src_eq_spec. Qed.
+Print Assumptions C01_commit_source_is_spec.
+
+(* On the image of EVERY model state, called as consumer.Commit calls it (consumer.offset = cdelta, checked to be non-zero
+   by the caller): the state after the call is the image of the model's state after OCommit, the error is nil exactly when
+   the model answers ROk, and a Broadcast happens exactly then. *)
+Theorem C01_commit_source_is_model : forall oe me perm fuel s c (delta : Z),
+  (forall k, getc s c = Some k -> cdelta k <> 0 /\ delta = Z.of_nat (cdelta k)) ->
+  run3 oe me perm fuel BB.Gen.ImplBuffer.commit_def (abs s) [WKey c; W (VInt delta)]
+  = Returned3 (abs (fst (step s (OCommit c)))) (commit_expected (snd (step s (OCommit c))))
+              (commit_log (snd (step s (OCommit c)))).
+Proof. exact Proofs.BufferGen.commit_src_eq_model. Qed.
+Print Assumptions C01_commit_source_is_model.
+
+(* Not vacuous, by running the translated source on states the model reaches ([ex_state]: three values put, two consumers,
+   consumer 0 committed one value and read another, the default cleaner ran: base 1; [ex_past]: the same with base 2): a
+   value case, a pending case, a "past" case, an unknown consumer - and the model's answers on the same states. *)
+Theorem C01_get_source_examples :
+  let run := fun s c d => run3 [] [] (fun l => l) 0 BB.Gen.ImplBuffer.get_def (abs s) [WKey c; W (VInt d)] in
+  let ex_state := Proofs.BufferGen.ex_state in
+  let ex_past := Proofs.BufferGen.ex_past in
+  base ex_state = 1 /\
+  run ex_state 0 1%Z = Returned3 (abs ex_state) [WElem (Some 30%Z); W (VBool true); WErr ErrNil] [] /\
+  run ex_state 0 2%Z = Returned3 (abs ex_state) [WElem None; W (VBool false); WErr ErrNil] [] /\
+  run ex_past 1 0%Z = Returned3 (abs ex_past) [WElem None; W (VBool false); WErr err_get_past] [] /\
+  run ex_state 7 0%Z = Returned3 (abs ex_state) [WElem None; W (VBool false); WErr err_get_unknown] [] /\
+  get_expected ex_state 0 = [WElem (Some 30%Z); W (VBool true); WErr ErrNil] /\
+  get_expected ex_past 1 = [WElem None; W (VBool false); WErr err_get_past].
+Proof. exact Proofs.BufferGen.get_src_examples. Qed.
+Print Assumptions C01_get_source_examples.
+
+(* a successful commit (one map entry moves from 1 to 2, one Broadcast between Lock and Unlock) and an unknown consumer *)
+Theorem C01_commit_source_examples :
+  let run := fun s c d => run3 [] [] (fun l => l) 0 BB.Gen.ImplBuffer.commit_def (abs s) [WKey c; W (VInt d)] in
+  let ex_state := Proofs.BufferGen.ex_state in
+  run ex_state 0 1%Z
+  = Returned3 (abs (fst (step ex_state (OCommit 0)))) [WErr ErrNil] [log_lock; log_broadcast; log_unlock] /\
+  cmap ex_state = [(0, 1%Z); (1, 1%Z)] /\ cmap (fst (step ex_state (OCommit 0))) = [(0, 2%Z); (1, 1%Z)] /\
+  run ex_state 7 1%Z = Returned3 (abs ex_state) [WErr err_commit_unknown] [log_lock; log_unlock].
+Proof. exact Proofs.BufferGen.commit_src_examples. Qed.
+Print Assumptions C01_commit_source_examples.
